@@ -129,6 +129,18 @@ def systematic_jobs(tier, seed, ctx):
             jobs.append(_job(seed, f"sys:full:{n}", env, [{"op": "generate", "src": "symplyphysics", "perm": perm * 7919 + n, "faults": [], "check_symbols": 25}, {"op": "postprocess", "perm": perm * 104729 + n, "faults": []}, {"op": "probe"}]))
             n += 1
     # repeat in one process, and generation after library use
+    if tier == "thorough":
+        # fault_enumeration part: every fault site of two sub-trees, once per site kind and errno class
+        for src in ("symplyphysics/laws/kinematics", "symplyphysics/conditions", "symplyphysics/laws/nuclear"):
+            n_pages = len(expected_pages(src, ["core"])) + 3
+            for site in ("wopen", "write", "close", "mkdir", "ropen", "read"):
+                for k in range(1, n_pages + (8 if site in ("ropen", "read") else 1)):
+                    jobs.append(_job(seed, f"sys:enum:{src}:{site}:{k}", ENVS[(k + len(site)) % len(ENVS)], [
+                        {"op": "generate", "src": src, "perm": k, "faults": [{"site": site, "k": k, "errno": ["ENOSPC", "EIO", "EACCES"][k % 3]}]},
+                        {"op": "probe"},
+                        {"op": "generate", "src": src, "perm": 0, "faults": [], "recover": True},
+                        {"op": "postprocess", "perm": k, "faults": []},
+                        {"op": "probe"}]))
     jobs.append(_job(seed, "sys:repeat", ENV0, [{"op": "generate", "src": "symplyphysics/laws/kinematics", "perm": 0, "faults": []}, {"op": "probe"}, {"op": "generate", "src": "symplyphysics/laws/kinematics", "perm": 5, "faults": [], "stale": True}, {"op": "postprocess", "perm": 0, "faults": []}, {"op": "probe"}]))
     return jobs
 
